@@ -1374,6 +1374,9 @@ func (in *Interp) chanRecv(ch *ChanV) (Value, bool) {
 	if ch.Sym {
 		return in.symRecv(ch), true
 	}
+	if in.runGoroutines() {
+		return in.chanRecv(ch)
+	}
 	panic(pathEnd{"receive blocks (no concurrent sender modelled)"})
 }
 
@@ -1458,7 +1461,10 @@ func (in *Interp) goStmt(fr *frame, fn Value, args []Value) {
 	in.res.Events = append(in.res.Events, "go:"+name)
 	if in.eng.RunGoInline {
 		in.call(fn, args, token.NoPos)
+		return
 	}
+	// queued: run when the code that started it would otherwise block
+	in.goQueue = append(in.goQueue, goTask{fn: fn, args: args})
 }
 
 var _ = math.Inf
